@@ -32,6 +32,7 @@ import ast
 from binascii import unhexlify
 import calendar
 from collections import namedtuple
+import datetime
 from decimal import Decimal
 import io
 from itertools import chain
@@ -642,8 +643,9 @@ class DateType(_CassandraType):
 
     @staticmethod
     def deserialize(byts, protocol_version):
-        timestamp = int64_unpack(byts) / 1000.0
-        return util.datetime_from_timestamp(timestamp)
+        # integer arithmetic: float seconds lose microseconds far from the epoch
+        seconds, millis = divmod(int64_unpack(byts), 1000)
+        return util.datetime_from_timestamp(seconds) + datetime.timedelta(milliseconds=millis)
 
     @staticmethod
     def serialize(v, protocol_version):
